@@ -10,8 +10,8 @@ import (
 
 	"google.golang.org/protobuf/proto"
 
-	"github.com/openconfig/gribigo/rib"
 	spb "github.com/openconfig/gribi/v1/proto/service"
+	"github.com/openconfig/gribigo/rib"
 
 	"verifh/internal/ev"
 	"verifh/internal/gen"
@@ -37,20 +37,22 @@ type Opts struct {
 
 // Trace summarises what happened, for non-triviality rules.
 type Trace struct {
-	ReplacedDifferent int // acknowledged ADD/REPLACE over an installed key with a different payload
-	DeletedInstalled  int // acknowledged DELETE of an installed key
-	HeldResolved      int // held operations acknowledged later
-	HeldFailed        int
-	Held              int
-	Cascade2          int // calls that acknowledged >= 2 held operations
-	FlushSurvivors    int // flushes that left entries in other NIs
-	Flushes           int
-	PartialFlushes    int
-	DeleteMustFail    int
-	DeleteOKInstalled int
-	Retargets         int
+	ReplacedDifferent      int // acknowledged ADD/REPLACE over an installed key with a different payload
+	DeletedInstalled       int // acknowledged DELETE of an installed key
+	HeldResolved           int // held operations acknowledged later
+	HeldFailed             int
+	Held                   int
+	Cascade2               int // calls that acknowledged >= 2 held operations
+	FlushSurvivors         int // flushes that left entries in other NIs
+	Flushes                int
+	PartialFlushes         int
+	DeleteMustFail         int
+	DeleteOKInstalled      int
+	Retargets              int
 	DepDeletedWhileWaiting int
-	Failed            int
+	Failed                 int
+	TopAcks                int // acknowledged ADD/REPLACE of ipv4/ipv6/mpls entries (incl. held ones resolved later)
+	TopDeletes             int // acknowledged DELETE of an installed ipv4/ipv6/mpls entry
 }
 
 func protect(f func()) (panicked string) {
@@ -227,9 +229,16 @@ func Run(h hgen.History, o Opts) (*ev.Verdict, *Trace) {
 				if !ok {
 					continue
 				}
+				top := fk.Kind == gen.V4 || fk.Kind == gen.V6 || fk.Kind == gen.MPLS
 				if s.op.GetOp() == spb.AFTOperation_DELETE {
+					if _, inst := fold[fk]; inst && top {
+						tr.TopDeletes++
+					}
 					delete(fold, fk)
 				} else {
+					if top {
+						tr.TopAcks++
+					}
 					fold[fk] = model.Canon(model.Payload(s.op))
 				}
 			}
